@@ -13,6 +13,7 @@ import (
 	"context"
 	"encoding/json"
 	"fmt"
+	"os"
 	"runtime/debug"
 	"sort"
 	"strings"
@@ -716,6 +717,11 @@ func execute(c *Case, choose func(step int, ready []int) int) (sig, msg string, 
 			step.Schedule = &sr
 			if sr.TimedOut {
 				w.incon = "schedule controller watchdog"
+				// keep the goroutine dump and the case next to the shard's summary for diagnosis
+				if out := kit.GetEnv().Out; out != "" {
+					cb, _ := json.Marshal(c)
+					_ = os.WriteFile(out+".stuck.txt", []byte(string(cb)+"\n\n"+sr.Stuck), 0o644)
+				}
 				return "", "", w
 			}
 			if sr.Deadlock {
